@@ -342,7 +342,7 @@ pub fn replacement_values() -> Vec<Option<Yaml>> {
     for s in [
         "", "x", "s", "1ss", "ms", "-1", "1h-1", "9223372036854775808", "18446744073709551616",
         "99999999999999999999999999999w", "30500568904943w", "1w2d3h4m5s", "1 h", "1_0s",
-        "0.0.0.0/0", "10.0.0.0/16", "10.0.0.0/30", "10.0.0.0/31", "10.0.0.0/32", "10.0.0.0/33",
+        "0.0.0.0/0", "0.0.0.0/1", "0.0.0.0/32", "255.255.255.255/32", "255.255.255.254/31", "255.255.255.255/0", "255.255.255.0/24", "10.0.0.0/16", "10.0.0.0/30", "10.0.0.0/31", "10.0.0.0/32", "10.0.0.0/33",
         "10.0.0.0/64", "10.0.0.0/255", "10.0.0.0/256", "10.0.0.0/-1", "10.0.0.0/", "/24",
         "10.0.0.0", "10.0.0.0/24/1", "10.0.0.1/24", "::/0", "::/128", "::/129", "::/255",
         "::ffff:10.0.0.0/95", "::ffff:10.0.0.0/96", "::ffff:10.0.0.0/120", "::ffff:10.0.0.0/129",
